@@ -27,7 +27,7 @@ are longer matches than the word).
 
 The printer works on tokens: `Expr.toks` is the canonical token list, `ETok.lexeme` the canonical spelling of
 one token, `Expr.show` writes the lexemes with one space between two of them, except that nothing is written
-before `.name`, `[`, `]`, `,`, `)` and after `(`, `[` (`a.b[1]`, `(1..n)`, `x | f: 1, 2`).
+before `.name`, `[`, `]`, `,`, `)` and after `(`, `[` (`a.b[1]`, `(1 .. n)`, `x | f: 1, 2`).
 -/
 
 /-- exact decimal expansion of a rational whose denominator is a power of two (every finite float64):
